@@ -45,6 +45,10 @@ pub enum Tamper {
     TSecret(Codec),
     TChallenge(Codec),
     TProof(Codec),
+    /// v (or u) plus a point outside the prime order subgroup, presented through a decoder: the pairing does not see
+    /// the added component, so only the decoder's subgroup check stands between the altered proof and acceptance
+    VAddTorsion(Codec),
+    UAddTorsion(Codec),
 }
 
 #[derive(Clone, Debug, PartialEq, Eq, Hash, Serialize, Deserialize)]
@@ -160,6 +164,10 @@ impl<C: Suite> Model for M10<C> {
                 a.push(TSecret(c));
                 a.push(TChallenge(c));
             }
+            for c in DECODERS {
+                a.push(VAddTorsion(c));
+                a.push(UAddTorsion(c));
+            }
         }
         a
     }
@@ -262,6 +270,16 @@ impl<C: Suite> Model for M10<C> {
                 Some(VNeg) => p = mk_pok::<C>(st.s, u, -v),
                 Some(VAddG) => p = mk_pok::<C>(st.s, u, v + gen),
                 Some(VIdentity) => p = mk_pok::<C>(st.s, u, SgP::<C>::identity()),
+                Some(VAddTorsion(cd)) | Some(UAddTorsion(cd)) => {
+                    let from = pt(if matches!(t, Some(VAddTorsion(_))) { &v } else { &u });
+                    let to = rf::torsion_perturbed(&from).ok_or("no torsion point")?;
+                    match redecode_with_point(&p, &from, &to, cd) {
+                        Ok(q) => p = q,
+                        Err(e) if e == "component-not-found" => return Err(e),
+                        // refused by the decoder: the altered proof is rejected
+                        Err(_) => return Ok(Some(false)),
+                    }
+                }
                 Some(TProof(cd)) => {
                     p = match cd {
                         Codec::Bytes => ProofOfKnowledge::<C>::try_from(Vec::<u8>::from(&p).as_slice()).map_err(|e| e.to_string())?,
@@ -300,8 +318,15 @@ impl<C: Suite> Model for M10<C> {
             // independent reference verification of the same proof (own pairing equation)
             let (u, v) = parts(&p);
             let refacc = rf::pok_verify::<C::R>(
-                &<C::R as rf::RefSuite>::sig_from(&pt(&u)).ok_or("ref decode u")?,
-                &<C::R as rf::RefSuite>::sig_from(&pt(&v)).ok_or("ref decode v")?,
+                &match <C::R as rf::RefSuite>::sig_from(&pt(&u)) {
+                    Some(x) => x,
+                    // not a subgroup point: the reference refuses the proof
+                    None => return Ok(Some(acc)).and_then(|r| if acc { Err("library accepts a proof whose u the reference cannot decode".to_string()) } else { Ok(r) }),
+                },
+                &match <C::R as rf::RefSuite>::sig_from(&pt(&v)) {
+                    Some(x) => x,
+                    None => return Ok(Some(acc)).and_then(|r| if acc { Err("library accepts a proof whose v the reference cannot decode".to_string()) } else { Ok(r) }),
+                },
                 &<C::R as rf::RefSuite>::pk_from(&Vec::<u8>::from(&vpk)).ok_or("ref decode pk")?,
                 &rf::scalar_from_be(&vy.to_be_bytes()).ok_or("ref decode y")?,
                 &vmsg,
